@@ -14,10 +14,15 @@ RULE = ('families of closed loops of the C04 space: simple polygons (convex, sta
         'inserted point) and two rigidly moved copies (rotate_x/y/z by arbitrary angles and a translation, through the crate Transform), every '
         'one built through the real push/close API; class, stored vertices, normal, area, perimeter, centroid, and area/normal/outer_centroid of '
         'Polygon3D::new of the loop compared bit for bit; '
-        'non-trivial = family with >= 4 successfully closed variants; distinct = distinct base point list')
+        'non-trivial = family with >= 4 successfully closed variants; distinct = distinct base point list; thorough tier: also 500 families of the f32 build '
+        '(rigid copies: shifts to 8, right angles 70% of the time; correspondence only, no oracle)')
 ASSUMPTIONS = [
     'Coq 8.16.1 kernel + vm_compute; theorems over the real-number instance of the model (exact tier)',
     'model = code: loop3d.rs push/close/set_normal/set_area/set_perimeter/centroid checked bit for bit on every variant of every family',
+    'f32 build (thorough tier): the same runner text instantiated on the binary32 instance (module C10f32 of Run/C10.v on NumF32fast, proved equal to the '
+    'Flocq-rounded NumF32 in Run/FastNum32Proof.v) against the harness built with --features float, bit for bit; the f32 generator draws 75% coordinate planes, offsets to 8 '
+    '(finding F15: the absolute 1e-7 coplanarity tolerance refuses oblique f32 outlines; refusals are reproduced by the model); CORRESPONDENCE ONLY: the exact-rational '
+    'oracle does not judge f32 cases',
     'float vs exact evaluation is not proved: the exact-rational oracle checks the implementation outputs against exact area / edge lengths / '
     'vertex mean at rounding-aware tolerances (area: 1e-9 relative + (n+5) ulp of sum |v_i|_1 |v_{i+1}|_1, which is the forward error bound of '
     'the formula sum v_i x v_{i+1} used by the crate; it is what limits the accuracy at offset 1e3)',
@@ -27,7 +32,12 @@ THEOREMS = ['C10_sum_cross_is_newell', 'C10_area_is_half_abs_n_dot_S', 'C10_norm
 def streams(tier):
     if tier == 'quick': return [Stream('C10', 300)]
     if tier == 'search': return [Stream('C10', 600)]
-    return [Stream('C10', 1500), Stream('C10', 500, release=True)]
+    # f32 build (thorough tier): correspondence only, the oracle does not judge f32 cases
+    return [Stream('C10', 1500), Stream('C10', 500, release=True), Stream('C10', 500, f32=True)]
+
+def is_f32(c, st=None):
+    """cases of the f32 build carry "f32": true (harness/src/loops.rs); the stream flag says the same"""
+    return bool(c.get('f32') or (st is not None and getattr(st, 'f32', False)))
 
 def fls(bits, st):
     fm = Fmt(st.f32 if st is not None else False)
@@ -37,7 +47,7 @@ def classify(c, st):
     key = tuple(c['variants'][0]['pts'])
     nok = sum(1 for v in c['variants'] if v['o'] == 0)
     p = c['note'].split(':')
-    return key, nok < 4, p[0] + ':' + (p[3] if len(p) > 3 else '')
+    return key, nok < 4, ('f32:' + (p[2] if len(p) > 2 else '') + ':' if is_f32(c, st) else '') + p[0] + ':' + (p[3] if len(p) > 3 else '')
 
 def describe(c, st):
     b = c['variants'][0]
@@ -122,6 +132,8 @@ def apply_mat(mat, p, w):
     return tuple(mat[4 * r] * p[0] + mat[4 * r + 1] * p[1] + mat[4 * r + 2] * p[2] + mat[4 * r + 3] * w for r in range(3))
 
 def oracle(c, st):
+    # f32 build: correspondence only (U = 2^-53 and REL = 1e-9 above are binary64 allowances)
+    if is_f32(c, st): return None
     vs = c['variants']
     base = vs[0]
     if any(v['o'] == 99 for v in vs):
